@@ -57,6 +57,13 @@ impl Framed {
         (&self.buffer[..], self.buffer.capacity() - self.buffer.len())
     }
 
+    /// Verification hook: bytes of a keepalive reply that are still to be sent, if a keepalive is
+    /// waiting to be handed over.
+    #[cfg(feature = "verif_hooks")]
+    pub fn verif_unanswered(&self) -> Option<usize> {
+        self.unanswered.as_ref().map(|(_, reply)| reply.len())
+    }
+
     /// Modifies whether or not to verify the Insim version
     pub fn verify_version(&mut self, verify_version: bool) {
         self.verify_version = verify_version;
